@@ -33,7 +33,10 @@ func loneStar(l []string) bool { return len(l) == 1 && l[0] == "*" }
 //     (the statement does not say whether e-mails are trimmed).
 //
 // A lone "*" admits any non-empty e-mail: settled by the statement, also for non-ASCII e-mails.
-func emailKind(sub oracle.Rules, list []string, email string) tri {
+//
+// Where the only unsettled aspects are BLANK entries and OUTER WHITE SPACE, settleRare settles what every
+// reading agrees on (see there).
+func emailKind(sub oracle.Rules, list []string, email string, isDomain bool) tri {
 	if len(list) == 0 {
 		return notConfigured
 	}
@@ -52,18 +55,93 @@ func emailKind(sub oracle.Rules, list []string, email string) tri {
 	ok, dc := sub.EmailAdmits(email)
 	switch {
 	case ws:
-		return dontCare
+		return settleRare(sub, list, email, isDomain)
 	case ok:
 		return pass
 	case dc:
-		return dontCare
+		return settleRare(sub, list, email, isDomain)
 	}
 	return fail
 }
 
+func blank(s string) bool { return strings.TrimSpace(s) == "" }
+
+func ascii(s string) bool {
+	for i := 0; i < len(s); i++ {
+		if s[i] >= 0x80 {
+			return false
+		}
+	}
+	return true
+}
+
+// settleRare is consulted where emailKind would answer dont-care. The statement reads the configured strings
+// as addresses / domains the e-mail must EQUAL (case-insensitively). Two things it leaves open: whether
+// white space around an entry or the e-mail is trimmed before comparing, and what a blank entry ("" or
+// white space only) means. Every reading agrees on this much:
+//   - a blank entry is no address, and it is the domain of no e-mail that has a non-empty domain part: it
+//     admits nobody by itself, and it does not change what the other entries mean (a list of blank entries
+//     only is still a configured rule kind - it admits nobody);
+//   - if the e-mail equals no entry even after trimming both sides, no reading admits it: fail;
+//   - if an un-padded e-mail equals an entry literally, every reading admits it: pass.
+//
+// Everything else (a match that exists only after trimming, "*" next to other entries, non-ASCII, a domain
+// listed with '@', an e-mail with white space inside, an e-mail without a domain part against a blank domain
+// entry) stays a dont-care.
+func settleRare(sub oracle.Rules, list []string, email string, isDomain bool) tri {
+	em := strings.TrimSpace(email)
+	if em == "" || !ascii(em) || strings.ContainsAny(em, " \t\r\n\v\f") {
+		return dontCare
+	}
+	hadBlank := false
+	var kept []string
+	for _, e := range list {
+		t := strings.TrimSpace(e)
+		switch {
+		case t == "":
+			hadBlank = true
+			continue
+		case t == "*" || !ascii(t) || (isDomain && strings.Contains(t, "@")):
+			return dontCare
+		}
+		kept = append(kept, t)
+	}
+	if isDomain && hadBlank {
+		if at := strings.LastIndex(em, "@"); at < 0 || at == len(em)-1 {
+			return dontCare // "the e-mail's domain" is empty / undefined: whether it equals a blank entry is not settled
+		}
+	}
+	lenient := oracle.Rules{Addresses: kept}
+	if isDomain {
+		lenient = oracle.Rules{Domains: kept}
+	}
+	okLenient, dc := lenient.EmailAdmits(em)
+	switch {
+	case dc:
+		return dontCare
+	case !okLenient:
+		return fail
+	}
+	if okLiteral, _ := sub.EmailAdmits(email); okLiteral && !hasOuterSpace(email) {
+		return pass
+	}
+	return dontCare
+}
+
+// normName is the most lenient reading of a group name (trimmed, case-folded); it only ever widens the
+// dont-care zone.
+func normName(s string) string { return strings.ToLower(strings.TrimSpace(s)) }
+
 // groupKind: "the provider reports them in a listed group". Group names are compared exactly by the
-// reference; a membership that differs from a listed name only by case is not settled by the statement
-// (don't-care), and neither are "*" / "" entries in allowed_groups.
+// reference: a user passes iff the directory lists them in a group whose name EQUALS a configured entry.
+//   - a membership that differs from a listed name only by case or by surrounding white space is not settled
+//     by the statement (dont-care), and neither is a "*" entry in allowed_groups;
+//   - a blank entry ("" or white space only) names no group anybody is reported in: by itself it admits
+//     nobody and it does not unsettle the other entries; a list of blank entries only is still a configured
+//     rule kind (it admits nobody). The one exception is a directory that reports a group literally named
+//     like the blank entry: not what the statement talks about (dont-care);
+//   - a literal match through a padded entry (" eng" listed, " eng" reported) is a dont-care as well (a
+//     reading that trims configured entries would look for "eng").
 func groupKind(r oracle.Rules, email string, memberOf []string) tri {
 	if len(r.Groups) == 0 {
 		return notConfigured
@@ -72,24 +150,35 @@ func groupKind(r oracle.Rules, email string, memberOf []string) tri {
 		return fail
 	}
 	if (oracle.Rules{Groups: r.Groups}).GroupAdmits(memberOf) {
+		solid := false
 		for _, g := range r.Groups {
-			if g == "" || g == "*" {
-				// a membership literally named "" or "*" is not what the statement talks about
-				for _, m := range memberOf {
-					if m == g {
-						return dontCare
-					}
+			for _, m := range memberOf {
+				if m != g {
+					continue
+				}
+				if blank(g) || g == "*" {
+					// a membership literally named "" / " " / "*" is not what the statement talks about
+					return dontCare
+				}
+				if !hasOuterSpace(g) {
+					solid = true
 				}
 			}
 		}
-		return pass
+		if solid {
+			return pass
+		}
+		return dontCare
 	}
 	for _, g := range r.Groups {
-		if g == "*" || g == "" {
+		if g == "*" {
 			return dontCare
 		}
+		if blank(g) {
+			continue
+		}
 		for _, m := range memberOf {
-			if strings.EqualFold(g, m) {
+			if strings.EqualFold(g, m) || normName(g) == normName(m) {
 				return dontCare
 			}
 		}
@@ -106,8 +195,8 @@ type reference struct {
 
 func refer(r oracle.Rules, email string, memberOf []string) reference {
 	x := reference{
-		addr: emailKind(oracle.Rules{Addresses: r.Addresses}, r.Addresses, email),
-		dom:  emailKind(oracle.Rules{Domains: r.Domains}, r.Domains, email),
+		addr: emailKind(oracle.Rules{Addresses: r.Addresses}, r.Addresses, email, false),
+		dom:  emailKind(oracle.Rules{Domains: r.Domains}, r.Domains, email, true),
 		grp:  groupKind(r, email, memberOf),
 	}
 	x.settled = x.addr != dontCare && x.dom != dontCare && x.grp != dontCare
